@@ -516,10 +516,37 @@ func extYAMLUnmarshal(fr *frame, args []value) value {
 	if v, ok := i.path.extra["yamlassume"]; ok {
 		i.assume(norm(types.Typ[types.Bool], i.tb.Eq(b, i.tb.Bool(v.(bool)))))
 	}
-	if i.decide(b) {
-		return nilErr()
+	if !i.decide(b) {
+		return i.mkError("[1:1] yaml: invalid document (oracle)")
 	}
-	return i.mkError("[1:1] yaml: invalid document (oracle)")
+	// Decoding into anything narrower than an empty interface can fail for a valid document (a
+	// sequence does not fit a map): a second oracle, per document and target type, again checked
+	// against the real library when a counterexample is replayed.
+	if target, ok := args[1].(iface); ok && target.t != nil {
+		if pt, isPtr := target.t.(*types.Pointer); isPtr {
+			it, isIface := pt.Elem().Underlying().(*types.Interface)
+			if !isIface || it.NumMethods() != 0 {
+				tname := pt.Elem().String()
+				fkey := "yamlfits:" + tname + ":" + bytesKey(data)
+				var f *Term
+				if t, ok := i.path.extra[fkey].(*Term); ok {
+					f = t
+				} else {
+					f = i.freshBool("yaml-fits")
+					i.path.extra[fkey] = f
+					var ts []*Term
+					for _, d := range data {
+						ts = append(ts, byteTerm(i, d))
+					}
+					i.path.inputs = append(i.path.inputs, InputRec{Kind: "yamlfits", Label: tname, Terms: append([]*Term{f}, ts...)})
+				}
+				if !i.decide(f) {
+					return i.mkError("[1:1] yaml: value of this document was used where " + tname + " is expected (oracle)")
+				}
+			}
+		}
+	}
+	return nilErr()
 }
 
 func extYAMLMarshal(fr *frame, args []value) value {
